@@ -490,7 +490,7 @@ theorem not_isWild_of_any {p : Text} (h : p.any isWild = false) : ∀ c ∈ p, c
 /-- `matches_word` on a pattern without wildcards decides the spec's word matching and never panics. -/
 theorem matchesWord_literal (E : Ext) (p s : Text) (hlit : p.any isWild = false) :
     ∃ b, matchesWord E p s = .ok b ∧ (b = true ↔ WordMatch p s) := by
-  unfold matchesWord
+  unfold matchesWord matchesWordImpl
   by_cases hs : s = p
   · subst hs
     refine ⟨true, by simp, ?_⟩
@@ -511,5 +511,61 @@ theorem matchesWord_literal (E : Ext) (p s : Text) (hlit : p.any isWild = false)
       simp only [hpe, Bool.false_eq_true, if_false, hlit]
       obtain ⟨r, hr1, hr2⟩ := scanLit_correct p hp s
       exact ⟨r, hr1, by rw [hr2, WordMatch_literal hp (not_isWild_of_any hlit)]⟩
+
+/-- For a non-empty text, occurring literally between word boundaries is `LitOcc`, whatever
+characters the text contains. -/
+theorem LiteralWordMatch_LitOcc {p : Text} (hp : p ≠ []) (s : Text) :
+    Ruma.Spec.Glob.LiteralWordMatch p s ↔ LitOcc p s := by
+  unfold Ruma.Spec.Glob.LiteralWordMatch LitOcc
+  constructor
+  · rintro (⟨h, _⟩ | ⟨_, i, j, hij, hj, hsl, hbi, hbj⟩)
+    · exact absurd h hp
+    obtain ⟨hdec, hlen⟩ := slice_decomp s i j hij hj
+    rw [hsl] at hdec
+    refine ⟨s.take i, s.drop j, hdec, ?_, ?_⟩
+    · have := boundary_iff_bnd (s.take i) (p ++ s.drop j)
+      rw [hlen, ← List.append_assoc, ← hdec] at this
+      exact this.1 hbi
+    · have := boundary_iff_bnd (s.take i ++ p) (s.drop j)
+      have hl : (s.take i ++ p).length = j := by
+        have := congrArg List.length hsl
+        simp [Ruma.Spec.Glob.slice] at this
+        simp; omega
+      rw [hl, ← hdec] at this
+      exact this.1 hbj
+  · rintro ⟨a, b, rfl, h1, h2⟩
+    refine Or.inr ⟨hp, a.length, a.length + p.length, by omega, by simp, ?_, ?_, ?_⟩
+    · rw [slice_mid]
+    · have := boundary_iff_bnd a (p ++ b)
+      rw [← List.append_assoc] at this
+      exact this.2 h1
+    · have := boundary_iff_bnd (a ++ p) b
+      simp only [List.length_append] at this
+      exact this.2 h2
+
+/-- `matches_word_impl` with `has_wildcards = false` never panics and decides the literal
+occurrence of `p` between word boundaries, for EVERY `p` (its `*` and `?` are ordinary characters). -/
+theorem matchesWordImpl_literal (E : Ext) (p s : Text) :
+    ∃ b, matchesWordImpl E false p s = .ok b ∧ (b = true ↔ Ruma.Spec.Glob.LiteralWordMatch p s) := by
+  unfold matchesWordImpl
+  by_cases hs : s = p
+  · subst hs
+    refine ⟨true, by simp, ?_⟩
+    simp only [true_iff]
+    by_cases hp : s = []
+    · subst hp; exact Or.inl ⟨rfl, rfl⟩
+    · exact (LiteralWordMatch_LitOcc hp s).2 ⟨[], [], by simp, by simp [bnd], by simp [bnd]⟩
+  · simp only [hs, if_false]
+    by_cases hp : p = []
+    · subst hp
+      refine ⟨false, by simp, ?_⟩
+      simp only [Bool.false_eq_true, false_iff]
+      rintro (⟨_, h⟩ | ⟨h, _⟩)
+      · exact hs h
+      · exact h rfl
+    · have hpe : p.isEmpty = false := by cases p <;> simp_all
+      simp only [hpe, Bool.false_eq_true, if_false]
+      obtain ⟨r, hr1, hr2⟩ := scanLit_correct p hp s
+      exact ⟨r, hr1, by rw [hr2, LiteralWordMatch_LitOcc hp]⟩
 
 end Ruma.Push
